@@ -24,7 +24,8 @@
 (*   MixedIndependent     splitting a configuration of compatible tags      *)
 (*                        between file and options does not matter.         *)
 (* TLC checks them for every case in Cases (all single tags x example       *)
-(* values, all override pairs, pairs of tags) for both commands.  With      *)
+(* values, all override pairs, pairs of tags, triples of tags inside the    *)
+(* interacting families) for both commands.  With      *)
 (* TwoPass = TRUE the same run shows which cases the two-pass construction  *)
 (* of the code breaks (MixedIndependent).                                   *)
 EXTENDS Naturals, Sequences, FiniteSets, TLC, CLITable
@@ -179,7 +180,7 @@ InvOptionOverridesTag ==
   (Done /\ case.kind = "override") => Effective(Result) = Effective(Run(case.cmd, <<>>, case.O))
 
 InvMixedIndependent ==
-  (Done /\ case.kind = "pair" /\ ~Exclusive(case)) =>
+  (Done /\ case.kind \in {"pair", "triple"} /\ ~Exclusive(case)) =>
      Effective(Result) = Effective(Run(case.cmd, Items(case), <<>>))
 
 (* the machine and its functional form agree (sanity of the specification) *)
